@@ -1,6 +1,7 @@
 (** getConnection as a whole, and the two chained walks. *)
 From Coq Require Import List ZArith String Ascii Bool Lia ZifyBool ZifyNat Arith Permutation Sorted.
-From Thunder Require Import Lib.Json Pagination.Model Pagination.ProofsSlice Pagination.ProofsSort.
+From Thunder Require Import Lib.Json Pagination.Model Pagination.ProofsFilterImpl Pagination.ProofsSlice
+  Pagination.ProofsSort.
 Import ListNotations.
 Open Scope list_scope.
 
@@ -35,7 +36,7 @@ Lemma filter_length_le {A} (f : A -> bool) l : List.length (filter f l) <= List.
 Proof. induction l as [|x t IH]; simpl; auto. destruct (f x); simpl; lia. Qed.
 
 Lemma base_list_length_le cfg l a : sort_ok cfg a -> List.length (base_list cfg l a) <= List.length l.
-Proof. intros H. rewrite base_list_length; auto. apply filter_length_le. Qed.
+Proof. intros H. rewrite base_list_length, apply_text_filter_eq; auto. apply filter_length_le. Qed.
 
 Lemma nodup_map_filter {A B} (g : A -> B) (f : A -> bool) l :
   NoDup (map g l) -> NoDup (map g (filter f l)).
@@ -51,7 +52,7 @@ Lemma base_list_nodup cfg l a :
 Proof.
   intros Hs Hn. eapply Permutation_NoDup.
   - apply Permutation_map. apply Permutation_sym. apply base_list_perm. exact Hs.
-  - apply nodup_map_filter. exact Hn.
+  - rewrite apply_text_filter_eq. apply nodup_map_filter. exact Hn.
 Qed.
 
 Lemma base_list_nil cfg a : sort_ok cfg a -> base_list cfg [] a = [].
@@ -335,5 +336,27 @@ Section WithEnc.
     - symmetry. apply app_nil_r.
     - left. auto.
     - unfold base_edges. rewrite nodes_to_edges_length. pose proof (base_list_length_le cfg l a Hs). lia.
+  Qed.
+  Lemma walk_backward_from_mono cfg l a k :
+    forall f1 f2 cur r, f1 <= f2 ->
+      walk_backward_from enc f1 cfg l a k cur = (r, true) ->
+      walk_backward_from enc f2 cfg l a k cur = (r, true).
+  Proof.
+    induction f1 as [|f1 IH]; intros f2 cur r Hle H; [discriminate H|].
+    destruct f2 as [|f2]; [lia|]. cbn [walk_backward_from] in *.
+    destruct (get_connection enc cfg l (with_last_before a k cur)) as [c|e]; auto.
+    destruct (c_prev c); auto.
+    destruct (walk_backward_from enc f1 cfg l a k (Some (c_start c))) as [r1 b1] eqn:E1.
+    inversion H; subst. rewrite (IH f2 _ r1); auto. lia.
+  Qed.
+
+  Theorem walk_backward_fuel cfg l a k fuel :
+    NoDup (map n_key l) -> sort_ok cfg a -> (0 < k)%Z -> List.length l < fuel ->
+    walk_backward_from enc fuel cfg l a k None = walk_backward enc cfg l a k.
+  Proof.
+    intros Hnd Hs Hk Hf.
+    destruct (walk_backward_correct cfg l a k Hnd Hs Hk) as (p2 & H2 & _).
+    rewrite H2. unfold walk_backward in H2.
+    apply (walk_backward_from_mono cfg l a k (S (List.length l))); auto.
   Qed.
 End WithEnc.
